@@ -47,7 +47,37 @@ func DeferRejectKey(rj Rejection) string {
 	if n := nav(merged, ev.Pseq); n != nil && n["t"] == "o" {
 		return "defer:nested-group-before-parent"
 	}
+	// The object never arrives. The known finding is about objects that completed fine and
+	// whose ANCESTOR was nulled by a failure elsewhere. A payload for an object that was
+	// nulled by a failure inside its own subtree is a different defect (the object's groups
+	// must not even start): every error at or under the nulled ancestor lies under the
+	// payload's own path.
+	x := nulledPrefix(cloneT(resps[0].Data), ev.Pseq)
+	own, elsewhere := 0, 0
+	for _, e := range resps[0].Errs {
+		underX := x == "" || e.P == x || strings.HasPrefix(e.P, x+".")
+		underP := strings.HasPrefix(e.P, ev.Path+".")
+		if underP {
+			own++
+		} else if underX {
+			elsewhere++
+		}
+	}
+	if own > 0 && elsewhere == 0 {
+		return "defer:group-delivered-for-object-nulled-by-its-own-field"
+	}
 	return "defer:group-delivered-for-nulled-object"
+}
+
+// nulledPrefix is the path of the first node on the way to ps that is null or missing.
+func nulledPrefix(d map[string]any, ps []string) string {
+	for i := 0; i <= len(ps); i++ {
+		n := nav(d, ps[:i])
+		if n == nil || n["t"] != "o" && n["t"] != "l" {
+			return strings.Join(ps[:i], ".")
+		}
+	}
+	return strings.Join(ps, ".")
 }
 
 func cloneT(t ur.Tagged) map[string]any {
